@@ -14,6 +14,8 @@ type Check struct {
 	// History part (Explorer H).
 	Scenarios  func(tier string) []*h.Scenario
 	Monitors   func() []h.Monitor
+	// MonitorsFor, when set, builds the monitors with access to the scenario (shared baselines).
+	MonitorsFor func(s *h.Scenario) []h.Monitor
 	Bound      func(tier string) int
 	Prune      bool
 	// ShardByScenario gives whole scenarios to workers (many small scenarios) instead of splitting
